@@ -6,6 +6,7 @@ import Driver.Totp
 import Driver.Key
 import Driver.Merge
 import Driver.Kdbx4
+import Driver.Xml
 /-!
 `kpdriver`: reads one JSON case per line on stdin, runs the Lean model (and, where it differs, the reference
 specification) on the case's inputs and prints one JSON line per case:
@@ -24,6 +25,7 @@ def dispatch (op : String) (j : Json) : R Json :=
   | "key" => opKey j
   | "merge" => opMerge j
   | "kdbx4read" => opKdbx4Read j
+  | "xml" => opXml j
   | "selftest" => opSelfTest j
   | _ => throw s!"unknown op {op}"
 
